@@ -1265,7 +1265,7 @@ class tensor:
             return self.copy()
 
         # Check for special case of an order-1 object, has no effect
-        if (order == 1).all():
+        if self.ndims == 1 and (order == 1).all():
             return self.copy()
 
         # Np transpose does error checking on order, acts as permutation
